@@ -156,6 +156,11 @@ pub fn bytecode(cx: &mut Raw) {
 /// C11: random API histories, sequentially and on 16 threads at once.
 pub fn api(cx: &mut Raw) {
     let nhist = cx.n;
+    for i in 0..16 {
+        let mut steps = crate::hist::probe_history(i);
+        crate::hist::run_history(&mut steps);
+        cx.emit(json!({"kind":"history","steps":steps}));
+    }
     for i in 0..nhist {
         let len = if i % 10 == 0 { 200 } else { 10 + cx.rng.below(50) as usize };
         let mut steps = crate::hist::random_history(&mut cx.rng, len, 1, 1);
